@@ -71,6 +71,7 @@ func H_C10_Claim() {
 	rt.Assume(rt.IntLt(sdk.ZeroInt(), pre.Deposit))
 	srv := streamkeeper.NewMsgServerImpl(se.K)
 	msg := &streamtypes.MsgClaimStream{Receiver: pre.Receiver.String(), Sender: pre.Sender.String()}
+	rt.Assert("C12+C13.claim-message-passes-the-stateless-check", msg.ValidateBasic() == nil)
 
 	var res *streamtypes.MsgClaimStreamResponse
 	var err error
@@ -131,6 +132,7 @@ func H_C10_TopUp() {
 	se.Bank.Fund(pre.Sender, "nund", senderBal)
 	srv := streamkeeper.NewMsgServerImpl(se.K)
 	msg := &streamtypes.MsgTopUpDeposit{Receiver: pre.Receiver.String(), Sender: pre.Sender.String(), Deposit: sdk.NewCoin("nund", topup)}
+	rt.Assert("C12+C13.topup-message-passes-the-stateless-check", msg.ValidateBasic() == nil)
 	nowNs := rt.TimeNanos(now)
 	expired := rt.IntLe(pre.Zero, nowNs)
 	ext := rt.IntDivFloor(topup, rt.IntOfI64(pre.Rate))
@@ -172,6 +174,7 @@ func H_C10_Update() {
 	newRate := rt.I64("newRate")
 	srv := streamkeeper.NewMsgServerImpl(se.K)
 	msg := &streamtypes.MsgUpdateFlowRate{Receiver: pre.Receiver.String(), Sender: pre.Sender.String(), FlowRate: newRate}
+	rt.Assert("C11+C12.update-stateless-check-is-rate>=1", rt.Iff(msg.ValidateBasic() == nil, newRate >= 1))
 	rt.Assume(msg.ValidateBasic() == nil)
 	nowNs := rt.TimeNanos(now)
 
@@ -212,6 +215,7 @@ func H_C10_Cancel() {
 	pre := setupStream(se, "nund")
 	srv := streamkeeper.NewMsgServerImpl(se.K)
 	msg := &streamtypes.MsgCancelStream{Receiver: pre.Receiver.String(), Sender: pre.Sender.String()}
+	rt.Assert("C12+C13.cancel-message-passes-the-stateless-check", msg.ValidateBasic() == nil)
 	nowNs := rt.TimeNanos(now)
 
 	var err error
@@ -252,6 +256,11 @@ func H_C10_Create() {
 	se.Bank.Fund(send, "nund", senderBal)
 	srv := streamkeeper.NewMsgServerImpl(se.K)
 	msg := &streamtypes.MsgCreateStream{Receiver: recv.String(), Sender: send.String(), Deposit: sdk.NewCoin("nund", dep), FlowRate: rate}
+	// the stateless check admits exactly: positive deposit, rate >= 1, at least one minute of funding
+	safeRate := rt.IteI64(rate >= 1, rate, 1)
+	longEnough := rt.IntLe(sdk.NewInt(60), rt.IntDivFloor(dep, rt.IntOfI64(safeRate)))
+	rt.Assert("C11+C12.create-stateless-check-is-the-documented-rule", rt.Iff(msg.ValidateBasic() == nil,
+		rt.And(rt.IntLt(sdk.ZeroInt(), dep), rt.And(rate >= 1, longEnough))))
 	rt.Assume(msg.ValidateBasic() == nil)
 	nowNs := rt.TimeNanos(now)
 
